@@ -28,6 +28,11 @@ def run(ctx):
     ctx.do(D.rule_t2)
     ctx.do(SI.rule_of1)
     ctx.do(DG.rule_hd1)
-    ctx.do(u1, ENTRIES, min_functions=15)
+    ctx.do(u1, ENTRIES + [
+        (HYP, "Point.unit_tangent_towards"), (HYP, "Point.distance"),
+        (HYP, "Point.origin_to"), (HYP, "TangentVector.origin_to"),
+        ("geometry_tools/utils/types.py", "inexact_type"),
+        ("geometry_tools/utils/types.py", "is_linalg_type")],
+        min_functions=15)
     ctx.r.assume("numerical equality across packagings and scale invariance "
                  "of arbitrary formulas are not decided")
